@@ -238,7 +238,7 @@ def sweep(ctx: Ctx):
         for norm in (True, False):
             for al in alphas:
                 w = 1 / math.sqrt(al)
-                for r in [0.0, 1e-13, 0.999e-12, 1e-12, 1.001e-12, 1e-11, 1e-6 * w, 0.1 * w, w, 3 * w, 10 * w, 50 * w]:
+                for r in [0.0, 5e-324, 1e-310, 1e-290, 1e-200, 1e-100, 1e-30, 1e-13, 0.999e-12, 1e-12, 1.001e-12, 1e-11, 1e-6 * w, 0.1 * w, w, 3 * w, 10 * w, 50 * w]:
                     pts.append((kind, al, r, norm))
     if not ctx.quick:
         for _ in range(400):
@@ -299,6 +299,10 @@ def check_superposition_and_params(ctx: Ctx, data):
         as_, ap = 10 ** rng.uniform(-1, 2, size=ks), 10 ** rng.uniform(-1, 2, size=kp)
         if it % 3 == 0 and ks:
             P_[0] = cs[0]  # a point on a centre
+        if it % 3 == 1:
+            P_[npts - 1] = cs[0]  # a point on a centre whose index differs from the function's
+            if kp:
+                P_[2] = cp[kp - 1]
         norm = bool(it % 2)
         kw = dict(centers_p=cp, coeffs_p=fp, alphas_p=ap) if kp else {}
         got = GC.coulomb_potential(P_, cs, fs, as_, normalized=norm, **kw)
